@@ -637,7 +637,67 @@ func r145(c *Ctx) {
 		c.ob(rule, "NewTarget/"+m.kind+"-sizes-in-order", call.pos(), len(a0) > 0 && len(a1) > 0 && a0[len(a0)-1].Name() == "MaxMemoryBufferSize" && a1[len(a1)-1].Name() == m.max, true,
 			"arguments must be (MaxMemoryBufferSize, "+m.max+"): both are int64, a swap compiles")
 		// wraps the handler built so far, result becomes the proxy handler
-		c.ob(rule, "NewTarget/"+m.kind+"-wraps-proxy-handler", call.pos(), isLoadOfField(call.common().Args[2], c.field("Target", "proxyHandler")), true, "")
+		phF := c.field("Target", "proxyHandler")
+		cph := c.method("Target", "createProxyHandler")
+		var chain func(v ssa.Value, d int) bool
+		chain = func(v ssa.Value, d int) bool {
+			if d > 6 {
+				return false
+			}
+			if isLoadOfField(v, phF) {
+				return true
+			}
+			switch x := resolve(v).(type) {
+			case *ssa.Call:
+				if isCallTo(x.Common(), cph) {
+					return true
+				}
+				if isCallTo(x.Common(), wq) || isCallTo(x.Common(), wr) {
+					return chain(x.Call.Args[2], d+1)
+				}
+			case *ssa.Phi:
+				for _, e := range x.Edges {
+					if !chain(e, d+1) {
+						return false
+					}
+				}
+				return len(x.Edges) > 0
+			}
+			return false
+		}
+		var becomes func(v ssa.Value, d int) bool
+		becomes = func(v ssa.Value, d int) bool {
+			if d > 6 || v.Referrers() == nil {
+				return false
+			}
+			for _, r := range *v.Referrers() {
+				switch x := r.(type) {
+				case *ssa.Store:
+					if f, _, ok := fieldOfAddr(x.Addr); ok && f == phF && x.Val == v {
+						return true
+					}
+					if a, ok := x.Addr.(*ssa.Alloc); ok && x.Val == v {
+						// a local variable holding the handler built so far
+						for _, rr := range *a.Referrers() {
+							if u, ok := rr.(*ssa.UnOp); ok && u.Op == token.MUL && becomes(u, d+1) {
+								return true
+							}
+						}
+					}
+				case *ssa.Phi:
+					if becomes(x, d+1) {
+						return true
+					}
+				case *ssa.Call:
+					if (isCallTo(x.Common(), wq) || isCallTo(x.Common(), wr)) && len(x.Call.Args) == 3 && x.Call.Args[2] == v && becomes(x, d+1) {
+						return true
+					}
+				}
+			}
+			return false
+		}
+		cv, _ := call.instr.(ssa.Value)
+		c.ob(rule, "NewTarget/"+m.kind+"-wraps-proxy-handler", call.pos(), chain(call.common().Args[2], 0) && cv != nil && becomes(cv, 0), true, "the middleware must wrap the handler built so far (the reverse proxy, possibly already wrapped) and its result must become the target's proxy handler")
 	}
 	c.paramsToFields(rule, wq, "RequestBufferMiddleware", map[string]string{"maxMemBytes": "maxMemBytes", "maxBytes": "maxBytes", "next": "next"})
 	c.paramsToFields(rule, wr, "ResponseBufferMiddleware", map[string]string{"maxMemBytes": "maxMemBytes", "maxBytes": "maxBytes", "next": "next"})
